@@ -12,7 +12,9 @@ from .base import Prop, Record, finding, freeze_decisions, safe
 from .C14 import C14, fingerprint
 
 DYADIC_L = (0.0, 0.125, 0.5, 1.0, 2.0)
-ANY_L = DYADIC_L + (0.11, 0.01, 0.3)
+# values that a narrow NumPy float represents exactly although their small multiples do not stay exact in that type
+NARROW_L = (float(np.float32(0.11)), float(np.float32(0.3)), float(np.float16(0.11)), float(np.float16(0.7)))
+ANY_L = DYADIC_L + (0.11, 0.01, 0.3) + NARROW_L
 SCALAR_FORMS = ("int", "float", "np.float32", "np.float64", "np.int32", "np.int64")
 
 
@@ -23,6 +25,8 @@ def forms_for(value):
         out += ["int", "np.int32", "np.int64"]
     if float(np.float32(v)) == v:
         out.append("np.float32")
+    if abs(v) < 6e4 and float(np.float16(v)) == v:
+        out.append("np.float16")
     return out
 
 
@@ -94,7 +98,8 @@ class C18(Prop):
     def gen(self, seed):
         r = core.rng(seed, "C18", "gen")
         wide = r.random() < 0.35       # W >= 4 is where lambda*k and sum_k(lambda) can differ
-        case = workload.gen_case("C18", seed, lambda_values=ANY_L if r.random() < 0.5 else DYADIC_L,
+        case = workload.gen_case("C18", seed, lambda_values=(ANY_L if r.random() < 0.5 else DYADIC_L) if r.random() < 0.75
+                                 else NARROW_L,
                                  beta_values=(0, 0.5, 2, 5, 20, 200), beta_forms=("float",),
                                  lambda_forms=("float",), mmc_values=(0, 0, 2.0 ** -10, 2.0 ** -7),
                                  limits=(1, 2, 3, 5), N=(1, 1) if wide else (1, 3), W=(4, 8) if wide else (1, 4),
@@ -112,7 +117,11 @@ class C18(Prop):
         vs.append(("beta_vector", c))
         for name in ("sparsity_weight", "label_switching_cost", "min_meaningful_covariance"):
             fs = [f for f in forms_for(a[name]["value"]) if f != "float"]
-            for f in r.sample(fs, min(2, len(fs))):
+            narrow = [f for f in fs if f in ("np.float32", "np.float16")]
+            picks = r.sample(fs, min(2, len(fs)))
+            if narrow and not set(picks) & set(narrow):
+                picks[-1] = r.choice(narrow)
+            for f in picks:
                 c = workload.clone(case)
                 c["args"][name]["form"] = f
                 vs.append((f"{name}:{f}", c))
